@@ -60,6 +60,10 @@ PidRun(g, sp, ms, vals, k) ==       \* TRUE iff vals[k..] are admissible from th
 C06_Pid == Is("Pid") =>
   /\ PidRun([p |-> Cur.p, i |-> Cur.i, d |-> Cur.d], Cur.sp, Cur.ms, Cur.vals, 1)
   /\ \A i \in 1..Len(Cur.vals) : InRange(Cur.vals[i]) /\ Cur.cur[i] = Cur.vals[i]
+\* a term far beyond 0..1 is clamped BEFORE it is scaled: 255 for a positive term, 0 for a negative one (from the second
+\* evaluation on; the first one only starts the clock and yields 0)
+C06_PidSaturates == Is("PidSat") =>
+  \A i \in 3..Len(Cur.vals) : Cur.vals[i] = Cur.want
 C06_PidRange == Is("PidRange") => \A i \in 1..Len(Cur.vals) : InRange(Cur.vals[i])
 
 \* ---- C07: hotter never means slower ----
